@@ -428,3 +428,10 @@ func derefMap(fv reflect.Value) map[string]interface{} {
 	}
 	return o
 }
+
+// DiffTrees compares two untyped trees (JSON members, sink values) numerically.
+func DiffTrees(path string, want, got interface{}) []string {
+	var out []string
+	diffTree(path, want, got, &out)
+	return out
+}
